@@ -243,7 +243,7 @@ class Gen:
         return text
 
     def comp_clause(self, depth, avoid=None):
-        tgt = self.pick([t for t in ["y", "z", "x"] if t != avoid and t not in self.targets])
+        tgt = self.pick([t for t in ["y", "z", "x", "v", "u", "q"] if t != avoid and t not in self.targets])
         if tgt == "x":
             self.features.add("target-shadows-arg")
         it = self.expr(self.pick(["ilist", "ilist", "iset", "itup"]), depth)
